@@ -17,7 +17,7 @@ import (
 // ---------------------------------------------------------------------------------------------------------------------
 
 func (p *Prog) Named(pkgShort, typeName string) *types.Named {
-	obj := p.pkg(pkgShort).Types.Scope().Lookup(typeName)
+	obj := p.pkg(pkgShort).Types.Scope().Lookup(p.cur("type", pkgShort, "", typeName))
 	if obj == nil {
 		infra("anchor: type %s.%s not found", pkgShort, typeName)
 	}
@@ -29,7 +29,8 @@ func (p *Prog) Named(pkgShort, typeName string) *types.Named {
 }
 
 func (p *Prog) TryField(pkgShort, typeName, field string) *types.Var {
-	obj := p.pkg(pkgShort).Types.Scope().Lookup(typeName)
+	field = p.cur("field", pkgShort, typeName, field)
+	obj := p.pkg(pkgShort).Types.Scope().Lookup(p.cur("type", pkgShort, "", typeName))
 	if obj == nil {
 		return nil
 	}
@@ -55,7 +56,8 @@ func (p *Prog) Field(pkgShort, typeName, field string) *types.Var {
 
 // TryMethod returns the SSA function of a method declared on typeName (value or pointer receiver), or nil.
 func (p *Prog) TryMethod(pkgShort, typeName, method string) *ssa.Function {
-	obj := p.pkg(pkgShort).Types.Scope().Lookup(typeName)
+	method = p.cur("method", pkgShort, typeName, method)
+	obj := p.pkg(pkgShort).Types.Scope().Lookup(p.cur("type", pkgShort, "", typeName))
 	if obj == nil {
 		return nil
 	}
@@ -85,7 +87,7 @@ func (p *Prog) Method(pkgShort, typeName, method string) *ssa.Function {
 }
 
 func (p *Prog) TryFn(pkgShort, name string) *ssa.Function {
-	obj, _ := p.pkg(pkgShort).Types.Scope().Lookup(name).(*types.Func)
+	obj, _ := p.pkg(pkgShort).Types.Scope().Lookup(p.cur("func", pkgShort, "", name)).(*types.Func)
 	if obj == nil {
 		return nil
 	}
@@ -101,7 +103,7 @@ func (p *Prog) Fn(pkgShort, name string) *ssa.Function {
 }
 
 func (p *Prog) Const(pkgShort, name string) constant.Value {
-	obj, _ := p.pkg(pkgShort).Types.Scope().Lookup(name).(*types.Const)
+	obj, _ := p.pkg(pkgShort).Types.Scope().Lookup(p.cur("const", pkgShort, "", name)).(*types.Const)
 	if obj == nil {
 		infra("anchor: constant %s.%s not found", pkgShort, name)
 	}
@@ -109,7 +111,7 @@ func (p *Prog) Const(pkgShort, name string) constant.Value {
 }
 
 func (p *Prog) ConstObj(pkgShort, name string) *types.Const {
-	obj, _ := p.pkg(pkgShort).Types.Scope().Lookup(name).(*types.Const)
+	obj, _ := p.pkg(pkgShort).Types.Scope().Lookup(p.cur("const", pkgShort, "", name)).(*types.Const)
 	if obj == nil {
 		infra("anchor: constant %s.%s not found", pkgShort, name)
 	}
@@ -117,7 +119,7 @@ func (p *Prog) ConstObj(pkgShort, name string) *types.Const {
 }
 
 func (p *Prog) GlobalVar(pkgShort, name string) *types.Var {
-	obj, _ := p.pkg(pkgShort).Types.Scope().Lookup(name).(*types.Var)
+	obj, _ := p.pkg(pkgShort).Types.Scope().Lookup(p.cur("var", pkgShort, "", name)).(*types.Var)
 	if obj == nil {
 		infra("anchor: variable %s.%s not found", pkgShort, name)
 	}
@@ -205,7 +207,7 @@ func fnName(fn *ssa.Function) string {
 	if fn == nil {
 		return "<nil>"
 	}
-	s := fn.String()
+	s := pinnedFnString(fn)
 	s = strings.ReplaceAll(s, modPath+"/", "")
 	s = strings.ReplaceAll(s, modPath, "sonic")
 	return s
@@ -1411,4 +1413,72 @@ func (p *Prog) postQueueFields() (posts, lck *types.Var) {
 		infra("anchor: the queue of posted handlers (a []func() field next to a sync.Mutex in package internal) was not found exactly once (%d)", len(found))
 	}
 	return found[0], locks[0]
+}
+
+// cur translates a pinned identifier into the identifier it carries in this tree.
+func (p *Prog) cur(kind, pkgShort, container, name string) string {
+	if p.alias == nil || len(p.alias.fwd) == 0 {
+		return name
+	}
+	return p.alias.current(kind, p.pkg(pkgShort).PkgPath, container, name)
+}
+
+// pinnedFnString is fn.String() with a renamed receiver type / function name spelled as on the pinned tree, so that
+// obligation keys (and the known findings keyed by them) survive a rename.
+func pinnedFnString(fn *ssa.Function) string {
+	s := fn.String()
+	t := aliasFor(fnTypesPkg(fn))
+	if t == nil || len(t.rev) == 0 {
+		return s
+	}
+	root := fn
+	for root.Parent() != nil {
+		root = root.Parent()
+	}
+	rootStr := root.String()
+	if !strings.HasPrefix(s, rootStr) {
+		return s
+	}
+	pk := fnTypesPkg(root)
+	if pk == nil {
+		return s
+	}
+	newRoot := rootStr
+	name := root.Name()
+	if sig := root.Signature; sig != nil && sig.Recv() != nil {
+		rt := sig.Recv().Type()
+		if pt, ok := rt.(*types.Pointer); ok {
+			rt = pt.Elem()
+		}
+		if n, ok := rt.(*types.Named); ok {
+			tn := n.Obj().Name()
+			pinT := t.pinned("type", pk.Path(), "", tn)
+			pinN := t.pinned("method", pk.Path(), pinT, name)
+			if strings.HasSuffix(newRoot, "."+name) && pinN != name {
+				newRoot = newRoot[:len(newRoot)-len(name)] + pinN
+			}
+			if pinT != tn {
+				newRoot = strings.Replace(newRoot, "."+tn, "."+pinT, 1)
+			}
+		}
+	} else if pinN := t.pinned("func", pk.Path(), "", name); pinN != name && strings.HasSuffix(newRoot, "."+name) {
+		newRoot = newRoot[:len(newRoot)-len(name)] + pinN
+	}
+	return newRoot + s[len(rootStr):]
+}
+
+// pinName: the name of a function or method as spelled on the pinned tree.
+func pinName(fn *ssa.Function) string {
+	if fn == nil {
+		return ""
+	}
+	pk := fnTypesPkg(fn)
+	t := aliasFor(pk)
+	if t == nil || len(t.rev) == 0 || pk == nil || fn.Parent() != nil {
+		return fn.Name()
+	}
+	if _, tn := recvTypeName(fn); tn != "" {
+		return t.pinned("method", pk.Path(), tn, fn.Name())
+	}
+	return t.pinned("func", pk.Path(), "", fn.Name())
 }
